@@ -186,7 +186,6 @@ def write_replay(prop: str, scenario: dict, violation: dict, meta: dict) -> str:
             {"property": prop, "violation": violation, "scenario": scenario, "meta": meta},
             f,
             indent=1,
-            sort_keys=True,
             default=core._jdefault,
         )
     return str(path)
